@@ -48,8 +48,13 @@ ENV = dict(os.environ)
 ENV.update({"CARGO_NET_OFFLINE": "true", "CARGO_TERM_COLOR": "never"})
 
 
+_LOG_LOCK = threading.Lock()
+
+
 def log(msg):
-    print(msg, flush=True)
+    with _LOG_LOCK:
+        sys.stdout.write(msg + "\n")
+        sys.stdout.flush()
 
 
 class Inst:
@@ -105,6 +110,24 @@ def _run(cmd, cwd=None, env=None, timeout=None, logf=None):
         with open(logf, "a") as f:
             f.write("$ " + " ".join(cmd) + "\n" + p.stdout + "\n")
     return p.returncode, p.stdout
+
+
+def run_tool(tool, args, workdir, release=True):
+    """Build and run a native helper under /verif/tools against /repo (nightly, hooks on)."""
+    tdir = os.path.join(ROOT, "tools", tool)
+    shutil.copyfile(os.path.join(REPO, "Cargo.lock"), os.path.join(tdir, "Cargo.lock"))
+    env = dict(ENV)
+    env["RUSTUP_TOOLCHAIN"] = "nightly"
+    env["RUSTFLAGS"] = "--cfg weechess_verif -Awarnings"
+    os.makedirs(TARGET, exist_ok=True)
+    lockf = open(os.path.join(TARGET, "tools.lock"), "w")
+    fcntl.flock(lockf, fcntl.LOCK_EX)
+    try:
+        cmd = ["cargo", "run", "--target-dir", os.path.join(TARGET, "tools")] + (["--release"] if release else []) + ["--"] + args
+        return _run(cmd, cwd=tdir, env=env, timeout=1800, logf=os.path.join(workdir, "tools.log"))
+    finally:
+        fcntl.flock(lockf, fcntl.LOCK_UN)
+        lockf.close()
 
 
 def crate_dir(crate):
@@ -587,6 +610,12 @@ def check(pid, plan, tier, only=None, seed=0):
             break
     harnesses = {}
     build_err = None
+    if prereq_fail is None:
+        for gen in plan.get("pregen", ()):
+            ok, why = gen(workdir)
+            if not ok:
+                prereq_fail = why
+                break
     if prereq_fail is None:
         for crate in sorted({i.crate for i in insts}):
             feats = plan["feature"]
